@@ -3,6 +3,7 @@ import PqModel.Merge
 import PqModel.MergeRanges
 import PqModel.Compare
 import PqModel.MergeRefine
+import PqModel.MergeZero
 
 namespace Driver.Ops.C09
 open Driver PqModel.Merge PqModel.Compare
@@ -86,6 +87,15 @@ def handle (toks : List String) : Option String :=
       let r := Reader.new (tagInputs ins) rs
       let res := sessionS r bs
       s!"ok {if res.2.2 then 1 else 0} {"|".intercalate (res.1.map showBatch)} {showList toString res.2.1}"
+    | _, _, _ => "bad-op"
+  | ["merge.runz", ins, bs, rs] => some <|
+    match parseLists? parseInt? ins, parseList? parseNat? bs, parseLists? parseNat? rs with
+    | some ins, some bs, some rs =>
+      match tagInputs ins with
+      | [a, b] =>
+        let out := (M2Z.new a b (rs.getD 0 []) (rs.getD 1 [])).session bs
+        s!"ok {"|".intercalate (out.map showBatch)}"
+      | _ => "bad-op"
     | _, _, _ => "bad-op"
   | ["merge.runc", specs, ins, bs, rs] => some <|
     match parseList? parseSpec? specs, parseLists? parseKeyRow? ins, parseList? parseNat? bs, parseLists? parseNat? rs with
